@@ -22,7 +22,31 @@ args = ap.parse_args()
 VERIF = os.path.dirname(os.path.dirname(os.path.abspath(__file__)))
 BIN = os.path.join(VERIF, 'bin', 'hopverif')
 
+def rename_edits(m):
+    """{"rename": {"dir": "transport", "old": "foo", "new": "bar"}}: word-boundary rename in every non-test file of dir"""
+    import re
+    r = m['rename']
+    out = []
+    d = os.path.join(args.repo, r['dir'])
+    for f in sorted(os.listdir(d)):
+        if not f.endswith('.go') or f.endswith('_test.go'):
+            continue
+        src = open(os.path.join(d, f)).read()
+        new = re.sub(r'\b%s\b' % re.escape(r['old']), r['new'], src)
+        if new != src:
+            out.append((os.path.join(d, f), new))
+    return out
+
 def run_one(prop, m, tmpdir):
+    if 'rename' in m:
+        overlays = []
+        for k, (path, new) in enumerate(rename_edits(m)):
+            out = os.path.join(tmpdir, '%s_%s_%d.go' % (prop, abs(hash(m['name'])) % 10**8, k))
+            open(out, 'w').write(new)
+            overlays.append((path, out))
+        if not overlays:
+            return ('stale', 'identifier not found')
+        return run_overlays(prop, m, overlays, tmpdir)
     edits = m.get('edits') or [m]
     overlays = []
     for k, e in enumerate(edits):
@@ -40,6 +64,9 @@ def run_one(prop, m, tmpdir):
         out = os.path.join(tmpdir, '%s_%s_%d.go' % (prop, abs(hash(m['name'])) % 10**8, k))
         open(out, 'w').write(src.replace(e['find'], e['replace']))
         overlays = [o for o in overlays if o[0] != path] + [(path, out)]
+    return run_overlays(prop, m, overlays, tmpdir)
+
+def run_overlays(prop, m, overlays, tmpdir):
     ov = ','.join('%s=%s' % o for o in overlays)
     evdir = os.path.join(tmpdir, 'ev_%s_%d' % (prop, abs(hash(m['name'])) % 10**8))
     os.makedirs(evdir, exist_ok=True)
